@@ -88,6 +88,8 @@ class C13Oracle(Oracle):
                 objs[h], ids[h] = _tgsnap(o)
             elif isinstance(o, TextgridTier):
                 objs[h] = obs_tier(o)
+            elif isinstance(o, list):
+                objs[h] = ("list", repr(o))
         files = {p: bytes(d) for p, d in world.fs.files.items()}
         return objs, ids, files
 
@@ -132,6 +134,8 @@ class C13Oracle(Oracle):
 
         def tkind(h):
             o = w.heap[h]
+            if isinstance(o, list):
+                return "list"
             return "tg" if isinstance(o, Textgrid) else ("I" if isinstance(o, IntervalTier) else "P")
 
         if kind == "mut" and out.ok:
@@ -189,6 +193,7 @@ class C13Oracle(Oracle):
                 run.stats["probe:failed_save_destination_checked"] += 1
             else:
                 same = out.step.get("same_as")
+                same = None if same is None else w.dec(same)
                 if same is not None and same in now_files:
                     if now_files.get(dest) != now_files.get(same):
                         self.fail("overwrite", name, "content-depends-on-previous-file", {
@@ -428,7 +433,9 @@ def tg_catalogue(g, w, h, tiers, tgs, wide, fileno, files_on):
     # ---- saves (each failing variant against a pre-existing destination)
     saves = []
     if files_on and has_span:
-        valid = tg.validate("silence")
+        # the generator only READS attributes; calling tg.validate() here would let a
+        # validate() that mutates leak unrecorded state changes into the history
+        valid = all(t.minTimestamp == tg.minTimestamp and t.maxTimestamp == tg.maxTimestamp for t in tg.tiers)
         its = [t for t in tg.tiers if isinstance(t, IntervalTier) and len(t.entries)]
         variants = [("bad-format", {"a": ["bogus", True], "k": {}}),
                     ("bad-reporting", {"a": [g.pick(FORMATS), rng.random() < 0.5], "k": {"reportingMode": BAD_OPTION}})]
@@ -481,7 +488,26 @@ def generate(run, rng):
     saved_paths = []
 
     def mk_tier(name=None, uniform=None):
-        st = g.ctor_interval(w, name) if rng.random() < 0.6 else g.ctor_point(w, name, distinct=False)
+        if rng.random() < 0.25:
+            # two objects built from the SAME list object (hidden aliasing through an argument)
+            lists = w.live(list)
+            if not lists or rng.random() < 0.4:
+                run.do(g.step_mklist(w, g.pick(["I", "I", "P"])))
+                lists = w.live(list)
+                if len(lists) > 2:
+                    run.do({"op": "env.drop", "a": lists[:1]})
+                    lists = w.live(list)
+            lh = g.pick(lists)
+            k = g.list_kind(w.heap[lh])
+            same = w.live(IntervalTier if k == "I" else PointTier)
+            if same and rng.random() < 0.4:
+                st = {"op": "tier.new", "recv": g.pick(same), "a": [], "k": {"entries": H(lh)},
+                      "out": w.new_handle(), "tag": "E-shared-list"}
+                o = run.do(st)
+                return st["out"] if (o is not None and o.ok) else None
+            st = g.ctor_from_list(w, lh, name)
+        else:
+            st = g.ctor_interval(w, name) if rng.random() < 0.6 else g.ctor_point(w, name, distinct=False)
         if uniform if uniform is not None else rng.random() < 0.5:
             st["a"][2], st["a"][3] = 0.0, top
         o = run.do(st)
